@@ -44,8 +44,9 @@ def run (op : String) (a : Json) : Option (Except String Json) :=
       pure <| ok (jObj [("derived", named d), ("base", named b)])
   | "gen.restrict_fields" => some do
       let base ← dNamed (fld a "base")
-      let (d, b) := restrictClass base (← dNamed (fld a "own"))
-      pure <| ok (jObj [("derived", jShapes (derivedFields b d)), ("base", jShapes b)])
+      let (inherits, d, b) := restrictDerived base (← dNamed (fld a "own"))
+      pure <| ok (jObj [("inherits", jBool inherits),
+                        ("derived", jShapes (if inherits then derivedFields b d else d)), ("base", jShapes b)])
   | "gen.ext_fields" => some do
       -- extension: inherited fields, then the own fields, each class with its own occurrence products
       let pa ← dParticle (fld a "base")
